@@ -204,7 +204,16 @@ fn main() {
         let cfg = cfg_from_point(p);
         let mut rng = run.rng(idx, 0);
         let max_total = if thorough { 3 << 20 } else { 1 << 20 };
-        let files = gen_fileset(&mut rng, cfg.sector_size(), max_total);
+        let mut files = gen_fileset(&mut rng, cfg.sector_size(), max_total);
+        // files at the compressor's break-even point (one as a whole small file, one as the tail sector of a larger file)
+        for (k, d) in break_even_contents(&mut rng, cfg.method).into_iter().enumerate() {
+            if k % 2 == 0 && d.len() < cfg.sector_size() {
+                let mut big = rng.bytes(cfg.sector_size());
+                big.extend_from_slice(&d);
+                files.push(FileSpec { name: format!("breakeven\\tail{k}.bin"), class: "break-even", data: big });
+            }
+            files.push(FileSpec { name: format!("breakeven\\whole{k}.bin"), class: "break-even", data: d });
+        }
         let desc = json!({"cfg": cfg.to_json(), "files": files.iter().map(|f| json!({"name": f.name, "len": f.data.len(), "class": f.class})).collect::<Vec<_>>()});
         let path = scratch.join(format!("c01-{idx}.mpq"));
         run.case(idx, &cfg.class(), desc, |c| {
